@@ -5,6 +5,7 @@ Both handle the conversion of odML documents from and to Python dictionary objec
 import sys
 
 from .. import format as odmlfmt
+from ..dtypes import DType
 from ..info import FORMAT_VERSION
 from .parser_utils import InvalidVersionException, ParserException
 from .parser_utils import odml_tuple_export, odml_tuple_split
@@ -152,6 +153,10 @@ class DictWriter:
 
                 if hasattr(prop, attr):
                     tag = getattr(prop, attr)
+                    # A dtype given as DType member is written as the name of the
+                    # type; yaml would write a python object annotation otherwise.
+                    if isinstance(tag, DType):
+                        tag = tag.value
                     # Tuples have to be serialized as lists to avoid
                     # nasty python code annotations when writing to yaml.
                     if isinstance(tag, tuple):
